@@ -22,6 +22,10 @@ Reads(op) == CASE op \in {"create1", "create1json", "reuse1", "create3", "create
                [] op \in {"parse", "boot", "sign", "update"} -> {"env"}
                [] op \in {"cachenv", "cachenv2", "parsehA"} -> {"multi"}
                [] op = "parsehB" -> {"multi2"}
+               \* the extended alphabet (Determinism_MC2): every remaining command, most with two DIFFERENT inputs of one kind
+               [] op \in {"extractA", "signrecA", "bootB", "updateB", "signB", "parseyamlA"} -> {"multi"}
+               [] op \in {"extractB", "signrecB", "parseyamlB"} -> {"multi2"}
+               [] op \in {"convertA", "convertB", "mpimerge", "cachemerge", "geninfo", "bootcfg"} -> {}
                [] OTHER -> {}
 \* YAML and JSON renderings (and the re-used dictionary) denote the same description
 Canon(op) == IF op \in {"create1json", "reuse1"} THEN "create1" ELSE op
